@@ -24,6 +24,7 @@ import (
 	"github.com/jhump/protoreflect/desc"
 	"github.com/jhump/protoreflect/desc/protoparse"
 	"github.com/jhump/protoreflect/dynamic"
+	pw "google.golang.org/protobuf/encoding/protowire"
 )
 
 // ---- schema ---------------------------------------------------------------------------------
@@ -1205,4 +1206,96 @@ func (v *pgVal) String() string {
 		return "map[" + strings.Join(p, " ") + "]"
 	}
 	return "?"
+}
+
+// ---- non-ascending wire orders ----------------------------------------------------------------
+
+// permuteWire re-orders the fields of the encoded message b (of type msgName) and, recursively, of its
+// sub-messages (singular, list elements, map values): the records of one field number stay together and in
+// order (as every encoder writes them), the groups are shuffled. Field order on the wire is free, and the
+// reference encoder itself writes oneof members after the regular fields, so readers must not assume
+// ascending field numbers. The length of b is unchanged. On any parse problem b is returned as it is.
+func (c *pgCompiled) permuteWire(r *rng, msgName string, b []byte) []byte {
+	m := c.S.msg(msgName)
+	if m == nil {
+		return b
+	}
+	type group struct {
+		recs [][]byte
+	}
+	var groups []*group
+	byNum := map[pw.Number]*group{}
+	rest := b
+	for len(rest) > 0 {
+		num, typ, n := pw.ConsumeTag(rest)
+		if n < 0 {
+			return b
+		}
+		vn := pw.ConsumeFieldValue(num, typ, rest[n:])
+		if vn < 0 {
+			return b
+		}
+		rec := rest[:n+vn]
+		if f := m.byNum(int32(num)); f != nil && typ == pw.BytesType && f.Kind == pgKMessage {
+			payload, _ := pw.ConsumeBytes(rest[n:])
+			var inner []byte
+			if f.Label == pgMap {
+				inner = c.permuteEntry(r, f, payload)
+			} else {
+				inner = c.permuteWire(r, f.MsgName, payload)
+			}
+			rec = pw.AppendBytes(append([]byte{}, rest[:n]...), inner)
+		}
+		g := byNum[num]
+		if g == nil {
+			g = &group{}
+			byNum[num] = g
+			groups = append(groups, g)
+		}
+		g.recs = append(g.recs, rec)
+		rest = rest[n+vn:]
+	}
+	if r.chance(80) {
+		for i := len(groups) - 1; i > 0; i-- {
+			j := r.intn(i + 1)
+			groups[i], groups[j] = groups[j], groups[i]
+		}
+	}
+	out := make([]byte, 0, len(b))
+	for _, g := range groups {
+		for _, rec := range g.recs {
+			out = append(out, rec...)
+		}
+	}
+	if len(out) != len(b) {
+		return b
+	}
+	return out
+}
+
+// a map entry keeps key (1) before value (2); a message value is permuted inside
+func (c *pgCompiled) permuteEntry(r *rng, f *pgField, b []byte) []byte {
+	out := make([]byte, 0, len(b))
+	rest := b
+	for len(rest) > 0 {
+		num, typ, n := pw.ConsumeTag(rest)
+		if n < 0 {
+			return b
+		}
+		vn := pw.ConsumeFieldValue(num, typ, rest[n:])
+		if vn < 0 {
+			return b
+		}
+		rec := rest[:n+vn]
+		if num == 2 && typ == pw.BytesType {
+			payload, _ := pw.ConsumeBytes(rest[n:])
+			rec = pw.AppendBytes(append([]byte{}, rest[:n]...), c.permuteWire(r, f.MsgName, payload))
+		}
+		out = append(out, rec...)
+		rest = rest[n+vn:]
+	}
+	if len(out) != len(b) {
+		return b
+	}
+	return out
 }
